@@ -4,6 +4,7 @@
            op = (n0 n<t> n<isComment> (x<str> ...)) | (n1 n<t> x<id>) | (n2 n<t> x<type>) | (n3 n<t> z<retry ns>)
               | (n6 n<t> x<id>) | (n7 n<t> x<type>)  as n1/n2 through UnmarshalText from a buffer that is overwritten afterwards
               | (n8 n<t> x<line>)  m_t.UnmarshalText("data: <line>\n\n") (line without CR/LF)
+              | (n9 n<t> x<doc> decodedopt) | (n10 n<t> x<doc> decodedopt)  the ID / type is set through UnmarshalJSON(doc)
               | (n4 n<t>)  append m_t.Clone() to the family | (n5 n0)  append a new empty Message
    output: ((x<wire> ...) (event ...) err)  with the events and the final error reported by
            sse.Read over the concatenation; event = (x<id> x<type> x<data>) *)
@@ -15,6 +16,17 @@ Definition dec_api_op (op : val) : api_op :=
   | 0 => OpAppend (as_bool (nth_val 2 op)) (map as_b (as_l (nth_val 3 op)))
   | 1 | 6 => OpSetID (as_b (nth_val 2 op))      (* 6/7: the value arrives through EventID/EventType.UnmarshalText *)
   | 2 | 7 => OpSetType (as_b (nth_val 2 op))
+  | 9 => (* EventID.UnmarshalJSON(doc); [decoded] is what encoding/json makes of doc as a string *)
+         match unmarshal_json (as_b (nth_val 2 op)) (as_opt as_b (nth_val 3 op)) with
+         | (Some v, false) => OpSetID v
+         | (None, false) => OpClearID
+         | _ => OpAppend false []
+         end
+  | 10 => match unmarshal_json (as_b (nth_val 2 op)) (as_opt as_b (nth_val 3 op)) with
+          | (Some v, false) => OpSetType v
+          | (None, false) => OpClearType
+          | _ => OpAppend false []
+          end
   | _ => OpSetRetry (as_z (nth_val 2 op))
   end.
 (* a family member is the list of API operations that built it (a clone starts with its
@@ -67,6 +79,14 @@ Definition p_apply (p : pmsg) (op : val) : pmsg :=
          else mkp (p_id p) (p_type p) (p_data p ++ flat_map text_lines_fast (map as_b (as_l (nth_val 3 op))))
   | 1 | 6 => if no_nlb (as_b (nth_val 2 op)) then mkp (Some (as_b (nth_val 2 op))) (p_type p) (p_data p) else p
   | 2 | 7 => if no_nlb (as_b (nth_val 2 op)) then mkp (p_id p) (Some (as_b (nth_val 2 op))) (p_data p) else p
+  | 9 | 10 =>
+      (* through JSON: null unsets; a document that decodes to a single-line string sets it; anything else is refused *)
+      let upd := fun f => if (as_n (nth_val 0 op) =? 9) then mkp f (p_type p) (p_data p) else mkp (p_id p) f (p_data p) in
+      if bytes_eqb (as_b (nth_val 2 op)) [110; 117; 108; 108] then upd None
+      else match as_opt as_b (nth_val 3 op) with
+           | Some v => if no_nlb v then upd (Some v) else p
+           | None => p
+           end
   | _ => p
   end.
 Definition p_family (i : val) : list pmsg :=
